@@ -197,7 +197,7 @@ def cases(seed, tier):
         rng = gen.case_rng(seed, ID, arch, 'values')
         picked = groups if tier == 'thorough' else groups[:1] + (rng.sample(groups[1:], 1) if len(groups) > 1 else [])
         for conn, midx in picked:
-            for pv in (0, 1, 2, 3, 4, 5, 6, 7, 8, 9, 15, 16, 17, 255, 256, 65537, (1 << 64) - 1, 1 << 64, (1 << 2048) + 1):
+            for pv in (0, 1, 2, 3, 4, 5, 6, 7, 8, 9, 15, 16, 17, 255, 256, 65537, (1 << 64) - 1, 1 << 64, (1 << 2048) + 1, (1 << 16384) + 1, (1 << 32768) + 1, (1 << 131072) + 1):
                 for gv in sorted({0, 1, 2, max(pv - 1, 0), pv, pv + 1}) if (tier == 'thorough' or pv < 20) else (2,):
                     grp = wire.frame(bytes([wire.MSG_GEX_GROUP]) + wire.mpint(pv) + wire.mpint(gv))
                     yield {'arch': arch, 'faults': [{'conn': conn, 'msg': midx, 'kind': 'replace', 'hex': grp.hex(), 'field': 'group_values', 'mut': 'p=%d g=%d' % (pv if pv < 1 << 20 else pv.bit_length(), gv if gv < 1 << 20 else gv.bit_length())}],
